@@ -511,6 +511,55 @@ def huge_number_family(ck: Check) -> None:
                                  {"type": "huge-number", "source_with_placeholder": shown, "mode": mode, "async": use_async, "raised": r})
 
 
+VALID_SOURCES = [
+    # strict-valid templates whose expressions put words side by side without a separator (macro / call parameter lists, loop
+    # arguments, include / render bindings, the with tag): no error to suppress, so lax and warn mode must print what strict prints
+    "{% macro greet name %}Hello, {{ name }}!{% endmacro %}{% call greet user %}", "{% macro m a b %}[{{ a }}|{{ b }}]{% endmacro %}{% call m x y %}",
+    "{% macro m a, b: x %}[{{ a }}|{{ b }}]{% endmacro %}{% call m user b: y %}", "{% for i in items reversed %}{{ i }}{% endfor %}",
+    "{% for i in items limit: x reversed %}{{ i }}{% endfor %}", "{% tablerow i in items cols: x limit: y %}{{ i }}{% endtablerow %}",
+    "{% include 'p' with user as u %}", "{% include 'p' for items as u %}", "{% render 'p' with user as u %}", "{% render 'p' for items as u, x: y %}",
+    "{% with a: user b: x %}{{ a }}{{ b }}{% endwith %}", "{% assign v = user | default: x %}{{ v }}", "{% if user and x or y %}t{% endif %}",
+    "{% if user contains x %}t{% else %}f{% endif %}", "{% unless x == y %}u{% endunless %}", "{% case x %}{% when y or 1 %}w{% endcase %}",
+    "{% cycle user, x, y %}{% cycle user, x, y %}", "{% echo user | append: x %}", "{% liquid\n  assign q = user\n  echo q\n%}",
+    "{% capture c %}{{ user }}{% endcapture %}{{ c }}", "{% increment x %}{% decrement x %}",
+]
+
+
+def valid_templates_family(ck: Check) -> None:
+    import warnings
+
+    from liquid import DictLoader, Environment, Mode
+    import liquid.extra as ex
+
+    from ..core import classify_exc, run_async
+
+    data = {"user": "World", "x": 1, "y": 2, "items": [1, 2, 3]}
+    for src in VALID_SOURCES:
+        outs = {}
+        for mode in ("STRICT", "WARN", "LAX"):
+            for use_async in (False, True):
+                env = Environment(tolerance=getattr(Mode, mode), loader=DictLoader({"p": "({{ u }})"}))
+                ex.add_tags(env)
+                with warnings.catch_warnings(record=True) as w:
+                    warnings.simplefilter("always")
+                    try:
+                        t = env.from_string(src)
+                        o = ("out", run_async(t.render_async(**data)) if use_async else t.render(**data))
+                    except Exception as e:  # noqa: BLE001
+                        o = ("err", classify_exc(e))
+                outs[(mode, use_async)] = (o, len([x for x in w if "Liquid" in type(x.message).__name__]))
+        ck.note_case(("valid", src))
+        ck.count("valid-templates")
+        ref = outs[("STRICT", False)]
+        if ref[0][0] != "out":
+            continue                     # not valid in strict mode after all: nothing to compare (counted, not judged)
+        bad = {k: v for k, v in outs.items() if v[0] != ref[0] or v[1] != 0}
+        if bad:
+            ck.violation("impl-violation", f"valid-template-differs-across-modes:{src[:50]}",
+                         f"{src!r} parses and renders {ref[0]} in strict mode, but (mode, async) -> (result, warnings): {bad}",
+                         {"type": "valid-template", "source": src})
+
+
 def run(ck: Check) -> None:
     ck.rule = (
         f"Sources are concatenations of pieces (one tag, output statement or run of text each; {len(PIECES)} pieces: every standard tag and the "
@@ -540,6 +589,7 @@ def run(ck: Check) -> None:
     ]
     ck.proof()
     huge_number_family(ck)
+    valid_templates_family(ck)
 
     import time
 
@@ -610,6 +660,28 @@ def run(ck: Check) -> None:
 
 
 def replay(data) -> int:
+    if data["case"].get("type") == "valid-template":
+        class _Ck:
+            def __init__(self):
+                self.v = []
+
+            def note_case(self, *a, **k):
+                pass
+
+            def count(self, *a, **k):
+                pass
+
+            def violation(self, kind, sig, what, d, no_input=False):
+                self.v.append(what)
+        global VALID_SOURCES
+        saved, VALID_SOURCES = VALID_SOURCES, [data["case"]["source"]]
+        ck_ = _Ck()
+        valid_templates_family(ck_)  # type: ignore[arg-type]
+        VALID_SOURCES = saved
+        for w_ in ck_.v:
+            print(w_)
+        print(("VIOLATION reproduced" if ck_.v else "not reproduced") + f" property={data['property']}")
+        return 1 if ck_.v else 0
     if data["case"].get("type") == "huge-number":
         import warnings
 
